@@ -291,3 +291,34 @@ func Harness_C08_setWithMeta()    { stepWithMeta(pC08, false) }
 func Harness_C08_deleteWithMeta() { stepWithMeta(pC08, true) }
 func Harness_C17_setWithMeta()    { stepWithMeta(pC17, false) }
 func Harness_C17_deleteWithMeta() { stepWithMeta(pC17, true) }
+
+// C07: CAS / CRC32c macro expansions inside a combined write resolve to that write's
+// new CAS and to the checksum of the body as stored.
+func Harness_C07_macroExpansion() {
+	P := verifPropUniverse(2, map[string]any{}, 1)
+	k := kvBegin(pC07)
+	ctx := context.Background()
+	u := k.env.U[0]
+	verifAssume(validateXattrKey(u) == nil)
+	xv := verifBytes("xv")
+	verifAssume(verifAnd(xv != nil, verifObjIs(xv), verifObjWellFormed(xv)))
+	verifPrefer(verifBytesEq(verifJSONCanon(xv), xv))
+	body := verifBytes("body")
+	cas := verifU64("cas")
+	exp := verifU32("exp")
+	opts := &sgbucket.MutateInOptions{MacroExpansion: []sgbucket.MacroExpansionSpec{
+		{Path: u + "." + P[0], Type: sgbucket.MacroCas},
+		{Path: u + "." + P[1], Type: sgbucket.MacroCrc32c},
+	}}
+	casOut, err := k.c.WriteWithXattrs(ctx, k.key, exp, cas, body, map[string][]byte{u: xv}, nil, opts)
+	post := k.post()
+	if err != nil {
+		k.failed("refused")
+		return
+	}
+	verifReach("applied")
+	stored := verifXattrGet(post.Xattrs, u)
+	verifAssert(verifAnd(casOut == uint64(post.Cas), verifXattrHas(post.Xattrs, u), verifObjIs(stored)), "the xattr is stored as an object under the new CAS")
+	verifAssert(verifBytesEq(verifObjGet(stored, P[0]), verifMacroCasJSON(uint64(post.Cas))), "the CAS macro expands to the CAS this write stored")
+	verifAssert(verifBytesEq(verifObjGet(stored, P[1]), verifMacroCrcJSON(post.Value)), "the CRC32c macro expands to the checksum of the body as stored")
+}
